@@ -5,7 +5,7 @@
     helper defined exactly once in the file or its imports, no self import) are evaluated in Coq on the
     parsed files. Dart itself is never executed (no SDK): DartSem covers the enum conversions only. *)
 From Coq Require Import List String ZArith Bool.
-From GM Require Import Base.Result Facts.GoFacts Facts.Ana Model.Enums Model.Fields Model.Classify Model.Names Model.SqlTypes Model.Dart Proofs.C10 Proofs.C06 Proofs.C06t Proofs.C06c Proofs.C06x.
+From GM Require Import Base.Result Facts.GoFacts Facts.Ana Model.Enums Model.Fields Model.Classify Model.Names Model.SqlTypes Model.Dart Proofs.C10 Proofs.C06 Proofs.C06t Proofs.C06c Proofs.C06d Proofs.C06x.
 From GM Require Import Base.StrOrd Model.DartGen.
 Import ListNotations.
 Local Open Scope string_scope.
@@ -95,6 +95,14 @@ Theorem C06_traversal_example :
                      [ ("models_sub.dart", "predefined.dart"); ("models.dart", "models_sub.dart") ]).
 Proof. exact traversal_succeeds_on_a_two_package_graph. Qed.
 
+(** no dangling import, for every root directory, program, analysis graph, fuel and source list: every import edge the
+    traversal records leads to a file in which the traversal emits at least one declaration (an imported file exists
+    and is not empty) *)
+Theorem C06_traversal_imports_lead_to_emitted_files : forall root pr nodes F source st,
+  dart_run root pr nodes F source = Ok st ->
+  forall f f', In (f, f') (ds_imps st) -> exists d, In d (ds_decls st) /\ dd_file d = f'.
+Proof. exact dart_run_no_dangling_import. Qed.
+
 Print Assumptions C06_keys_and_constructor_arguments.
 Print Assumptions C06_enum_value_table_roundtrip.
 Print Assumptions C06_positional_enum_index_is_value.
@@ -106,3 +114,4 @@ Print Assumptions C06_import_block_depends_on_the_edge_set_only.
 Print Assumptions C06_links_closed_means_every_reference_resolves.
 Print Assumptions C06_traversal_output_is_linked.
 Print Assumptions C06_traversal_example.
+Print Assumptions C06_traversal_imports_lead_to_emitted_files.
